@@ -812,6 +812,46 @@ pub fn generate(name: &str, count: usize, rng: &mut Rng, sink: &mut dyn FnMut(Se
                 i += 1;
             }
         }
+        // every byte value next to the structural bytes of a line: as the last byte of UNKNOWN text
+        // (right before the CR), as its first byte (right after the space), and as the last byte
+        // of a TCP4 line's final field, with the CR at every position modulo 8 and with / without
+        // a trailer (so that a word-at-a-time search sees the pair in one word). count >= 6144
+        // means every combination, otherwise an evenly spaced, seed-shifted selection
+        "v1adj" => {
+            let mut combos: Vec<(u8, usize, usize)> = Vec::new();
+            let quick: [u8; 16] = [0x00, 0x01, 0x09, 0x0A, 0x0B, 0x0C, 0x0E, 0x1F, 0x20, 0x21, 0x7F, 0x80, 0xA9, 0xBF, 0xC3, 0xFF];
+            let values: Vec<u8> = if count >= 6144 { (0..=255u8).collect() } else { quick.to_vec() };
+            for b in values {
+                for k in 0..8usize {
+                    for place in 0..3usize {
+                        combos.push((b, k, place));
+                    }
+                }
+            }
+            let total = combos.len();
+            let take = count.min(total);
+            let step = total as f64 / take as f64;
+            let off = (rng.below(97) as f64) / 97.0 * step;
+            for i in 0..take {
+                let (b, k, place) = combos[((off + i as f64 * step) as usize).min(total - 1)];
+                // a continuation byte gets a lead byte in front of it so that the text is valid UTF-8
+                let unit: Vec<u8> = if (0x80..0xC0).contains(&b) { vec![if b < 0xA0 { 0xC2 } else { 0xC3 }, b] } else { vec![b] };
+                let pad: Vec<u8> = (0..k).map(|j| b'a' + j as u8).collect();
+                let mut bytes: Vec<u8> = Vec::new();
+                match place {
+                    0 => { bytes.extend_from_slice(b"PROXY UNKNOWN "); bytes.extend(&pad); bytes.extend(&unit); }
+                    1 => { bytes.extend_from_slice(b"PROXY UNKNOWN "); bytes.extend(&unit); bytes.extend(&pad); }
+                    _ => { bytes.extend_from_slice(b"PROXY TCP4 1.2.3.4 5.6.7.8 9 1"); bytes.extend(&pad.iter().map(|_| b'0').collect::<Vec<u8>>()); bytes.extend(&unit); }
+                }
+                let cr = bytes.len();
+                bytes.extend_from_slice(b"\r\n");
+                if i % 2 == 0 {
+                    bytes.extend_from_slice(b"GET / HTTP/1.1\r\n");
+                }
+                let chunks = split_at(&bytes, &[cr.saturating_sub(1), cr, cr + 1, cr + 2]);
+                sink(Session { sid: format!("v1adj-{}", i), tag: json!({"g": "v1adj", "b": b, "k": k, "place": place}), chunks, huge: None, consume: false });
+            }
+        }
         // arbitrary bytes over small alphabets, incl. multi-byte characters next to CR
         "v1junk" => {
             let pieces: [&[u8]; 14] = [b"P", b"PROXY", b" ", b"\r", b"\n", "\u{e9}".as_bytes(), "\u{20ac}".as_bytes(), "\u{1F600}".as_bytes(), b"UNKNOWN", b"TCP4", b"1", b"\xff", b"\x00", b"::"];
